@@ -5,7 +5,7 @@ type  := ('B', name) | ('C', t) | ('P', t) | ('L', t) | ('R', t) | ('A', n|None,
 cdecl := ('n', name|None) | ('p', const, d) | ('l', d) | ('r', d) | ('a', n|None, d) | ('f', variadic, d, params) | ('(', d)
 """
 
-SCALARS = ["int", "char", "double", "unsigned int", "long long int", "bool", "float", "unsigned char", "short int"]   # spelled as interrogate prints them
+SCALARS = ["int", "char", "double", "unsigned int", "long long int", "bool", "float", "unsigned char", "short int", "signed char", "signed char"]   # spelled as interrogate prints them
 
 
 def hx(s):
